@@ -157,6 +157,66 @@ Lemma dist_prog_is_std : forall tr h b,
   dist_prog tr (Node h b) = std_loop h (dist_stmts tr b) (fuel_of h) 0 0.
 Proof. intros tr h b. reflexivity. Qed.
 
+
+(* unfolding equations of the mutual fixpoints (all by computation) *)
+Lemma sync_prog_eq : forall h b,
+  sync_prog (Node h b) = loop gen_sync_exhausted gen_sync_incr true h (sync_stmts b) (fuel_of h) 0 0.
+Proof. reflexivity. Qed.
+Lemma sync_stmts_eq : forall s r,
+  sync_stmts (SCons s r) =
+  match fst (sync_stmt s) with
+  | Val v => (addv v (fst (sync_stmts r)), snd (sync_stmt s) ++ snd (sync_stmts r))
+  | o => (o, snd (sync_stmt s))
+  end.
+Proof. reflexivity. Qed.
+Lemma sync_group_eq : forall p r,
+  sync_group (PCons p r) =
+  match out (sync_prog p) with
+  | Val v => (addv v (fst (sync_group r)), log (sync_prog p) ++ snd (sync_group r))
+  | o => (o, log (sync_prog p))
+  end.
+Proof. reflexivity. Qed.
+Lemma sync_call_eq : forall p, sync_stmt (SCall p) = (out (sync_prog p), log (sync_prog p)).
+Proof. reflexivity. Qed.
+Lemma sync_group_stmt_eq : forall g, sync_stmt (SGroup g) = sync_group g.
+Proof. reflexivity. Qed.
+Lemma sync_direct_eq : forall p, sync_stmt (SDirect p) =
+  if gen_direct_returns_result then (out (sync_prog p), log (sync_prog p)) else (Exc type_error, []).
+Proof. reflexivity. Qed.
+Lemma sync_dpar_eq : forall g, sync_stmt (SDirectPar g) =
+  if gen_direct_par_aggregates then sync_group g else (Exc type_error, []).
+Proof. reflexivity. Qed.
+
+Lemma dist_prog_eq : forall tr h b,
+  dist_prog tr (Node h b) =
+  loop gen_dist_exhausted gen_dist_incr gen_dist_requeues h (dist_stmts tr b) (fuel_of h) 0 0.
+Proof. reflexivity. Qed.
+Lemma dist_stmts_eq : forall tr s r,
+  dist_stmts tr (SCons s r) =
+  match fst (dist_stmt tr s) with
+  | Val v => (addv v (fst (dist_stmts tr r)), snd (dist_stmt tr s) ++ snd (dist_stmts tr r))
+  | o => (o, snd (dist_stmt tr s))
+  end.
+Proof. reflexivity. Qed.
+Lemma dist_group_eq : forall tr p r,
+  dist_group tr (PCons p r) =
+  (match read tr (out (dist_prog tr p)) with Val v => addv v (fst (dist_group tr r)) | o => o end,
+   log (dist_prog tr p) ++ snd (dist_group tr r)).
+Proof. reflexivity. Qed.
+Lemma dist_call_eq : forall tr p,
+  dist_stmt tr (SCall p) = (read tr (out (dist_prog tr p)), log (dist_prog tr p)).
+Proof. reflexivity. Qed.
+Lemma dist_fire_eq : forall tr p, dist_stmt tr (SFire p) = (Val 0, log (dist_prog tr p)).
+Proof. reflexivity. Qed.
+Lemma dist_group_stmt_eq : forall tr g, dist_stmt tr (SGroup g) = dist_group tr g.
+Proof. reflexivity. Qed.
+Lemma dist_direct_eq : forall tr p, dist_stmt tr (SDirect p) =
+  (if gen_direct_returns_result then read tr (out (dist_prog tr p)) else Exc type_error, log (dist_prog tr p)).
+Proof. reflexivity. Qed.
+Lemma dist_dpar_eq : forall tr g, dist_stmt tr (SDirectPar g) =
+  (if gen_direct_par_aggregates then fst (dist_group tr g) else Exc type_error, snd (dist_group tr g)).
+Proof. reflexivity. Qed.
+
 (* ---------- equivalence under the guard ---------- *)
 Scheme prog_mut := Induction for prog Sort Prop
   with stmts_mut := Induction for stmts Sort Prop
@@ -179,26 +239,26 @@ Section Equiv.
   Proof.
     apply prog_mutind.
     - (* Node *) intros h b IHb Hreq. cbn [req_prog] in Hreq.
-      cbn [dist_prog sync_prog]. rewrite loop_params_agree. rewrite (IHb Hreq). reflexivity.
+      rewrite dist_prog_eq, sync_prog_eq, loop_params_agree, (IHb Hreq). reflexivity.
     - (* SNil *) intros _. reflexivity.
     - (* SCons *) intros s IHs r IHr Hreq. cbn [req_stmts] in Hreq.
       apply andb_true_iff in Hreq. destruct Hreq as [Hs Hr].
-      cbn [dist_stmts sync_stmts]. rewrite (IHs Hs), (IHr Hr). reflexivity.
+      rewrite dist_stmts_eq, sync_stmts_eq, (IHs Hs), (IHr Hr). reflexivity.
     - (* SCall *) intros p IHp Hreq. cbn [req_stmt] in Hreq.
-      cbn [dist_stmt sync_stmt]. rewrite (IHp Hreq), read_id. reflexivity.
+      rewrite dist_call_eq, sync_call_eq, (IHp Hreq), read_id. reflexivity.
     - (* SFire *) intros p _ Hreq. cbn [req_stmt] in Hreq. discriminate.
     - (* SGroup *) intros g IHg Hreq. cbn [req_stmt] in Hreq.
-      cbn [dist_stmt sync_stmt]. exact (IHg Hreq).
+      rewrite dist_group_stmt_eq, sync_group_stmt_eq. exact (IHg Hreq).
     - (* SDirect *) intros p IHp Hreq. cbn [req_stmt] in Hreq.
-      cbn [dist_stmt sync_stmt]. rewrite gen_direct_result. rewrite (IHp Hreq), read_id. reflexivity.
+      rewrite dist_direct_eq, sync_direct_eq, gen_direct_result, (IHp Hreq), read_id. reflexivity.
     - (* SDirectPar *) intros g IHg Hreq. cbn [req_stmt] in Hreq.
-      cbn [dist_stmt sync_stmt]. rewrite gen_direct_aggregates. rewrite (IHg Hreq).
+      rewrite dist_dpar_eq, sync_dpar_eq, gen_direct_aggregates, (IHg Hreq).
       destruct (sync_group g); reflexivity.
     - (* PNil *) intros _. reflexivity.
     - (* PCons *) intros p IHp g IHg Hreq. cbn [req_group] in Hreq.
       apply andb_true_iff in Hreq. destruct Hreq as [Hreq Hg].
       apply andb_true_iff in Hreq. destruct Hreq as [Hp Hlast].
-      cbn [dist_group sync_group]. rewrite (IHp Hp), (IHg Hg), read_id.
+      rewrite dist_group_eq, sync_group_eq, (IHp Hp), (IHg Hg), read_id.
       unfold succeeds in Hlast.
       destruct (out (sync_prog p)) as [v|e|] eqn:Eo.
       + reflexivity.
@@ -216,17 +276,17 @@ End Equiv.
 
 (* ---------- direct tasks ---------- *)
 Lemma direct_is_call_sync : forall p, sync_stmt (SDirect p) = sync_stmt (SCall p).
-Proof. intros p. cbn [sync_stmt]. rewrite gen_direct_result. reflexivity. Qed.
+Proof. intros p. rewrite sync_direct_eq, gen_direct_result. reflexivity. Qed.
 
 Lemma direct_is_call_dist : forall tr p, dist_stmt tr (SDirect p) = dist_stmt tr (SCall p).
-Proof. intros tr p. cbn [dist_stmt]. rewrite gen_direct_result. reflexivity. Qed.
+Proof. intros tr p. rewrite dist_direct_eq, gen_direct_result. reflexivity. Qed.
 
 Lemma direct_par_is_group_sync : forall g, sync_stmt (SDirectPar g) = sync_stmt (SGroup g).
-Proof. intros g. cbn [sync_stmt]. rewrite gen_direct_aggregates. reflexivity. Qed.
+Proof. intros g. rewrite sync_dpar_eq, gen_direct_aggregates. reflexivity. Qed.
 
 Lemma direct_par_is_group_dist : forall tr g, dist_stmt tr (SDirectPar g) = dist_stmt tr (SGroup g).
 Proof.
-  intros tr g. cbn [dist_stmt]. rewrite gen_direct_aggregates.
+  intros tr g. rewrite dist_dpar_eq, gen_direct_aggregates, dist_group_stmt_eq.
   destruct (dist_group tr g); reflexivity.
 Qed.
 
@@ -259,3 +319,149 @@ Lemma dropped_args_differ :
   out (run_dist (tr_drop [0]) p_retry_error_args) = Exc (mkExn 0 0) /\
   log (run_sync p_retry_error_args) = log (run_dist (tr_drop [0]) p_retry_error_args).
 Proof. vm_compute. repeat split; reflexivity. Qed.
+
+(* ---------- final forms used by Props/C19.v ---------- *)
+Lemma same_outcome_guarded : forall tr p,
+  (forall e, tr e = e) -> req_prog p = true -> out (run_dist tr p) = out (run_sync p).
+Proof. intros tr p Htr Hreq. rewrite (run_equiv tr Htr p Hreq). reflexivity. Qed.
+
+Lemma same_counts_guarded : forall tr p,
+  (forall e, tr e = e) -> req_prog p = true ->
+  forall i, count i (log (run_dist tr p)) = count i (log (run_sync p)).
+Proof. intros tr p Htr Hreq i. rewrite (run_equiv tr Htr p Hreq). reflexivity. Qed.
+
+Lemma same_retries_guarded : forall tr p,
+  (forall e, tr e = e) -> req_prog p = true -> retries (run_dist tr p) = retries (run_sync p).
+Proof. intros tr p Htr Hreq. rewrite (run_equiv tr Htr p Hreq). reflexivity. Qed.
+
+(* retry accounting of ONE invocation whose body statements yield c, for the standard loop *)
+Definition retry_accounting (h : header) (c : outcome * list nat) (x : res) : Prop :=
+  ((forall j, 1 <= j -> j <= maxr h + 1 -> retr_at h c j = true) ->
+     exists e, out x = Exc e /\ retriable h e = true /\ execs x = maxr h + 1 /\ retries x = maxr h) /\
+  (forall k v, 1 <= k -> k <= maxr h + 1 ->
+     (forall j, 1 <= j -> j < k -> retr_at h c j = true) -> fst (attempt h c k) = Val v ->
+     out x = Val v /\ execs x = k /\ retries x = k - 1) /\
+  (forall e, fst (attempt h c 1) = Exc e -> retriable h e = false ->
+     out x = Exc e /\ execs x = 1 /\ retries x = 0).
+
+Lemma std_retry_accounting : forall h c, retry_accounting h c (std_loop h c (fuel_of h) 0 0).
+Proof.
+  intros h c. unfold retry_accounting. repeat split.
+  - intros Hall.
+    destruct (keeps_raising_retriable h c Hall) as [Ho [He Hr]].
+    assert (Hlast : retr_at h c (maxr h + 1) = true) by (apply Hall; lia).
+    unfold retr_at in Hlast.
+    destruct (fst (attempt h c (maxr h + 1))) as [v|e|] eqn:Ea; try discriminate.
+    exists e. repeat split; assumption.
+  - apply (succeeds_on_attempt h c k v); assumption.
+  - apply (succeeds_on_attempt h c k v); assumption.
+  - apply (succeeds_on_attempt h c k v); assumption.
+  - apply (non_retriable_fails_at_once h c e); assumption.
+  - apply (non_retriable_fails_at_once h c e); assumption.
+  - apply (non_retriable_fails_at_once h c e); assumption.
+Qed.
+
+Lemma retry_accounting_sync : forall h b,
+  retry_accounting h (sync_stmts b) (sync_prog (Node h b)).
+Proof. intros h b. rewrite sync_prog_is_std. apply std_retry_accounting. Qed.
+
+Lemma retry_accounting_dist : forall tr h b,
+  retry_accounting h (dist_stmts tr b) (dist_prog tr (Node h b)).
+Proof. intros tr h b. rewrite dist_prog_is_std. apply std_retry_accounting. Qed.
+
+(* a body without sub-task calls: its log is exactly `execs` copies of its node id *)
+Lemma leaf_log : forall E i q h fuel k r,
+  let x := loop E i q h (Val 0, []) fuel k r in
+  k <= execs x /\ log x = repeat (nid h) (execs x - k).
+Proof.
+  intros E i q h fuel. induction fuel as [|f IH]; intros k r x; subst x.
+  - cbn. split; [lia|]. replace (k - k) with 0 by lia. reflexivity.
+  - cbn [loop].
+    assert (Hs : snd (attempt h (Val 0, []) (S k)) = [nid h]).
+    { unfold attempt. destruct (nth (S k - 1) (script h) (dflt h)); reflexivity. }
+    destruct (fst (attempt h (Val 0, []) (S k))) as [v|e|] eqn:Ea; cbn [out log retries execs];
+      try (rewrite Hs; split; [lia|]; replace (S k - k) with 1 by lia; reflexivity).
+    destruct (retriable h e); cbn [out log retries execs];
+      try (rewrite Hs; split; [lia|]; replace (S k - k) with 1 by lia; reflexivity).
+    destruct (E r (maxr h)); cbn [out log retries execs];
+      try (rewrite Hs; split; [lia|]; replace (S k - k) with 1 by lia; reflexivity).
+    destruct q; cbn [out log retries execs];
+      try (rewrite Hs; split; [lia|]; replace (S k - k) with 1 by lia; reflexivity).
+    destruct (IH (S k) (r + i)) as [Hle Hlog]. rewrite Hs, Hlog. split; [lia|].
+    replace (execs (loop E i true h (Val 0, []) f (S k) (r + i)) - k)
+      with (S (execs (loop E i true h (Val 0, []) f (S k) (r + i)) - S k)) by lia.
+    reflexivity.
+Qed.
+
+Lemma count_repeat : forall i n, count i (repeat i n) = n.
+Proof.
+  intros i n. unfold count. induction n as [|n IH]; [reflexivity|].
+  cbn [repeat filter]. rewrite Nat.eqb_refl. cbn [length]. rewrite IH. reflexivity.
+Qed.
+
+Lemma nth_nil_d : forall (A : Type) n (d : A), nth n [] d = d.
+Proof. intros A n d. destruct n; reflexivity. Qed.
+
+(* the statement's three sentences for a leaf body, as execution counts of the node *)
+Lemma leaf_keeps_raising : forall i m rf e,
+  gen_retriable rf (ekind e) = true ->
+  let p := leaf i m rf [] (ABefore e) in
+  out (run_sync p) = Exc e /\ count i (log (run_sync p)) = m + 1 /\ retries (run_sync p) = m /\
+  forall tr, out (run_dist tr p) = Exc (tr e) /\ count i (log (run_dist tr p)) = m + 1 /\
+             retries (run_dist tr p) = m.
+Proof.
+  intros i m rf e Hr p. subst p. unfold leaf.
+  set (h := mkH i m rf 1 [] (ABefore e)).
+  assert (Hall : forall j, 1 <= j -> j <= maxr h + 1 -> retr_at h (Val 0, []) j = true).
+  { intros j _ _. unfold retr_at, attempt. cbn [script dflt h].
+    rewrite nth_nil_d. cbn [fst]. exact Hr. }
+  assert (Hat : fst (attempt h (Val 0, []) (maxr h + 1)) = Exc e).
+  { unfold attempt. cbn [script dflt h]. rewrite nth_nil_d. reflexivity. }
+  destruct (keeps_raising_retriable h (Val 0, []) Hall) as [Ho [He Hre]].
+  rewrite Hat in Ho. cbn [maxr h] in He, Hre.
+  destruct (leaf_log (fun n m0 => Nat.leb m0 n) 1 true h (fuel_of h) 0 0) as [_ Hlog].
+  fold (std_loop h (Val 0, []) (fuel_of h) 0 0) in Hlog. rewrite He in Hlog.
+  replace (m + 1 - 0) with (m + 1) in Hlog by lia. cbn [nid h] in Hlog.
+  assert (Hs : sync_prog (Node h SNil) = std_loop h (Val 0, []) (fuel_of h) 0 0) by reflexivity.
+  assert (Hd : forall tr, dist_prog tr (Node h SNil) = std_loop h (Val 0, []) (fuel_of h) 0 0) by reflexivity.
+  unfold run_sync, run_dist. rewrite Hs. repeat split.
+  - exact Ho.
+  - rewrite Hlog. apply count_repeat.
+  - exact Hre.
+  - rewrite Hd. cbn [out]. rewrite Ho. reflexivity.
+  - rewrite Hd. cbn [log]. rewrite Hlog. apply count_repeat.
+  - rewrite Hd. cbn [retries]. exact Hre.
+Qed.
+
+(* the property at full strength, and why it does not hold of the faithful model *)
+Definition c19_statement : Prop :=
+  forall p, out (run_dist id_tr p) = out (run_sync p) /\
+            forall i, count i (log (run_dist id_tr p)) = count i (log (run_sync p)).
+
+Lemma c19_statement_refuted : ~ c19_statement.
+Proof.
+  intros H. destruct (H p_fire) as [_ Hc]. specialize (Hc 2).
+  destruct fire_counts_differ as [Hs [Hd _]]. rewrite Hs, Hd in Hc. discriminate.
+Qed.
+
+Lemma lazy_sync_witnesses :
+  (exists p i, out (run_dist id_tr p) = out (run_sync p) /\
+               count i (log (run_sync p)) = 0 /\ count i (log (run_dist id_tr p)) = 1) /\
+  (exists g i, req_prog g = false /\ out (run_dist id_tr g) = out (run_sync g) /\
+               count i (log (run_sync g)) = 0 /\ count i (log (run_dist id_tr g)) = 1).
+Proof.
+  split.
+  - exists p_fire, 2. destruct fire_counts_differ as [Hs [Hd Ho]]. repeat split; auto.
+  - exists p_group_after_failure, 3. destruct group_counts_differ as [Hs [Hd Ho]].
+    repeat split; auto.
+Qed.
+
+Lemma serializer_law_needed :
+  exists tr p, req_prog p = true /\ out (run_dist tr p) <> out (run_sync p) /\
+               log (run_dist tr p) = log (run_sync p).
+Proof.
+  exists (tr_drop [0]), p_retry_error_args.
+  destruct dropped_args_differ as [Hq [Hs [Hd Hl]]].
+  split; [exact Hq|]. split; [|symmetry; exact Hl].
+  rewrite Hs, Hd. discriminate.
+Qed.
